@@ -147,7 +147,7 @@ func (tc *termCtx) term(v ssa.Value, d int) string {
 		}
 		return "(" + tc.term(v.X, d+1) + " " + v.Op.String() + " " + tc.term(v.Y, d+1) + ")"
 	case *ssa.Call:
-		return tc.call(&v.Call, d)
+		return tc.callAt(&v.Call, v, d)
 	case *ssa.Extract:
 		return tc.term(v.Tuple, d+1) + fmt.Sprintf("#%d", v.Index)
 	case *ssa.Phi:
@@ -210,7 +210,32 @@ func derefStruct(t types.Type) *types.Struct {
 	return st
 }
 
+// call renders a call.  Two distinct call instructions with the same callee and
+// argument terms are NOT assumed to return the same value (the state they read may
+// have changed in between): the second and later ones, in block/instruction order,
+// carry a "@k" suffix.
 func (tc *termCtx) call(c *ssa.CallCommon, d int) string {
+	return tc.callAt(c, nil, d)
+}
+
+func (tc *termCtx) callAt(c *ssa.CallCommon, at *ssa.Call, d int) string {
+	s := tc.callBase(c, d)
+	if at == nil {
+		return s
+	}
+	if _, isBuiltin := c.Value.(*ssa.Builtin); isBuiltin {
+		return s
+	}
+	if k := tc.ff.callOrdinal(at, s); k > 1 {
+		// insert the ordinal before the argument list: F@2(args)
+		if i := strings.Index(s, "("); i > 0 {
+			return s[:i] + fmt.Sprintf("@%d", k) + s[i:]
+		}
+	}
+	return s
+}
+
+func (tc *termCtx) callBase(c *ssa.CallCommon, d int) string {
 	var args []string
 	for _, a := range c.Args {
 		args = append(args, tc.term(a, d+1))
@@ -420,4 +445,52 @@ type getterInfo struct {
 	k      int
 	suffix string
 	ok     bool
+}
+
+// callOrdinal: 1-based position of call among the calls of the function whose
+// callee name and argument count are the same and whose base rendering equals base.
+func (ff *FuncFacts) callOrdinal(call *ssa.Call, base string) int {
+	if ff.callOrd == nil {
+		ff.callOrd = map[*ssa.Call]int{}
+		ff.callGroups = map[string][]*ssa.Call{}
+	}
+	if k, ok := ff.callOrd[call]; ok {
+		return k
+	}
+	name := calleeName(&call.Call)
+	// candidates: same callee name
+	var cands []*ssa.Call
+	for _, b := range ff.Fn.Blocks {
+		for _, in := range b.Instrs {
+			if c, ok := in.(*ssa.Call); ok && calleeName(&c.Call) == name && len(c.Call.Args) == len(call.Call.Args) {
+				cands = append(cands, c)
+			}
+		}
+	}
+	if len(cands) <= 1 {
+		ff.callOrd[call] = 1
+		return 1
+	}
+	tc := &termCtx{ff: ff, progress: map[*ssa.Phi]string{}}
+	k := 0
+	res := 1
+	for _, c := range cands {
+		if ff.inOrdinal[c] {
+			continue
+		}
+		if ff.inOrdinal == nil {
+			ff.inOrdinal = map[*ssa.Call]bool{}
+		}
+		ff.inOrdinal[c] = true
+		b := tc.callBase(&c.Call, 1)
+		delete(ff.inOrdinal, c)
+		if b == base || c == call {
+			k++
+			if c == call {
+				res = k
+			}
+		}
+	}
+	ff.callOrd[call] = res
+	return res
 }
